@@ -26,7 +26,7 @@ from hypothesis import strategies as st
 
 import nfc.llcp.pdu as pdu
 from vlib import ref_llcp as ref
-from vlib.engine import Leg, Violation, unexpected, twin_env
+from vlib.engine import Leg, Violation, unexpected, app_stack, twin_env
 
 PROPERTY = "C11"
 LEVEL = "exploration"
@@ -295,7 +295,8 @@ def check_object(p, want, what):
 def check_bytes(b, ctx=None):
     """the byte-string oracle; returns a label.  raises Violation."""
     try:
-        p = pdu.decode(b)
+        with app_stack():
+            p = pdu.decode(b)
     except pdu.DecodeError:
         p = None
     except Exception as e:
